@@ -643,9 +643,14 @@ func (cx *c03ctx) exec(line string) {
 			}
 		}
 	case "mrg", "unm":
-		s1, c1, r1, ok1 := c03decode(w[1])
-		s2, c2, r2, ok2 := c03decode(w[2])
-		if ok1 && ok2 {
+		// both functions decode topLeft + ":" + bottomRight as one range reference
+		s1, s2 := unhx(w[1]), unhx(w[2])
+		var c1, r1, c2, r2 int
+		q0, qerr := xl.VerifRangeRefToCoordinates(s1 + ":" + s2)
+		ok1 := qerr == nil && len(q0) == 4 && q0[0] >= 1 && q0[2] >= 1
+		ok2 := ok1
+		if ok1 {
+			c1, r1, c2, r2 = q0[0], q0[1], q0[2], q0[3]
 			cx.touch(c1, r1)
 			cx.touch(c2, r2)
 		}
